@@ -10,8 +10,10 @@ import time
 from . import run as R
 
 ROOT = R.ROOT
-WCRATE = os.path.join(R.CACHE, 'witness-crate')
-WTARGET = os.path.join(R.CACHE, 'witness-target')
+import hashlib as _hl
+_sfx = '' if os.path.abspath(R.REPO) == '/repo' else '-' + _hl.sha1(os.path.abspath(R.REPO).encode()).hexdigest()[:8]
+WCRATE = os.path.join(R.CACHE, 'witness-crate' + _sfx)
+WTARGET = os.path.join(R.CACHE, 'witness-target' + _sfx)
 
 # (unit regex, fn regex) -> witness cases to try, in order
 CASES = [
